@@ -410,7 +410,7 @@ def _run_all(ctx, drv, T):
             rng = random.Random(f'C10:{ctx.seed}:{f.label}')
             if f.variant is None:
                 mode = 'sample'
-            elif ctx.thorough or (not f.variant.lzma and fi % 2 == ctx.seed % 2):
+            elif ctx.thorough or f.variant.empty or (not f.variant.lzma and fi % 2 == ctx.seed % 2):
                 mode = 'full'
             else:
                 mode = 'light'
@@ -461,7 +461,7 @@ def correspond(ctx, drivers):
         ctx.notes.append('Topo violations in the extracted tables (writer of A reaches B which is not later in LUMP_REBUILD_ORDER): '
                          + ', '.join(f'{T["names"][a]}->{T["names"][b]}' for a, b in t['topoViolations']))
     ctx.exhaustive = False
-    ctx.extra["exhaustive_part"] = "none + every single view on every file; all 2-subsets of the 21 views on half of the uncompressed synthesised variants (quick) / on every synthesised variant (thorough)"
+    ctx.extra["exhaustive_part"] = "none + every single view on every file; all 2-subsets of the 21 views on the variants with empty overlays / FACES_HDR / faces and on half of the other uncompressed synthesised variants (quick) / on every synthesised variant (thorough)"
     _run_all(ctx, drv, T)
 
 
